@@ -1633,3 +1633,320 @@ Lemma self_delivery_blocks :
   mstep P cfg0 s 0 = None /\
   (exists h rest, assoc_get (code s) 0 = Some (ILock h :: rest) /\ assoc_get (seqlocks s) (r_id h) = Some 0).
 Proof. vm_compute. split; [reflexivity|]. eexists. eexists. split; reflexivity. Qed.
+
+(* ================================================================== *)
+(* C03: no orphaned handler mutex - whoever is recorded as the holder of a Sequential handler's mutex still has the
+   matching deferred unlock (or the recover frame that produces it) in its code, in every reachable state *)
+Definition is_unlock (i : instr) : bool := match i with IUnlock _ => true | _ => false end.
+Definition nounlock (c : list instr) : Prop := forall i, In i c -> is_unlock i = false.
+(* a deferred unlock is only ever the very next instruction of a goroutine *)
+Definition uinv (s : bstate) : Prop := forall a c, assoc_get (code s) a = Some c -> nounlock (tl c).
+Definition cinv (s : bstate) : Prop :=
+  forall rid a, assoc_get (seqlocks s) rid = Some a -> exists c, assoc_get (code s) a = Some c /\ 0 < held rid c.
+
+Lemma nounlock_app a b : nounlock a -> nounlock b -> nounlock (a ++ b).
+Proof. intros Ha Hb i Hi. apply in_app_or in Hi. destruct Hi; auto. Qed.
+Lemma nounlock_cons i c : is_unlock i = false -> nounlock c -> nounlock (i :: c).
+Proof. intros Hi Hc x [<-|Hx]; auto. Qed.
+Lemma nounlock_tl c : nounlock c -> nounlock (tl c).
+Proof. intros H i Hi. apply H. destruct c; [contradiction | right; exact Hi]. Qed.
+Lemma plain_nounlock c : plain c -> nounlock c.
+Proof. intros H i Hi. specialize (H i Hi). destruct i; try reflexivity; discriminate. Qed.
+Lemma nounlock_nil : nounlock []. Proof. intros i []. Qed.
+
+Lemma after_recover_tl cfg p h async panicked r : nounlock r -> nounlock (tl (after_recover cfg p h async panicked ++ r)).
+Proof.
+  intros Hr. unfold after_recover.
+  assert (T : nounlock ((if panicked && c_panic_handler cfg then [IPanicHandler p h] else []) ++
+                        (if c_obs cfg then [IHandlerDone p h panicked] else []) ++ (if async then [ITaskDone] else []) ++ r)).
+  { repeat apply nounlock_app; try exact Hr;
+      [destruct (panicked && c_panic_handler cfg) | destruct (c_obs cfg) | destruct async];
+      try apply nounlock_nil; intros i [<-|[]]; reflexivity. }
+  destruct (h_seq (r_spec h)); cbn [app tl]; rewrite <- ?app_assoc; [exact T | apply nounlock_tl; exact T].
+Qed.
+
+Lemma unwind_suffix l p h async r : unwind l = Some (p, h, async, r) -> nounlock l -> nounlock r.
+Proof.
+  intros U Hl. apply unwind_spec in U. destruct U as [pre [-> _]]. intros i Hi. apply Hl.
+  apply in_or_app. right. right. exact Hi.
+Qed.
+
+Lemma unwind_heldc_ge l p h async r : nounlock l -> unwind l = Some (p, h, async, r) ->
+  forall rid, heldc rid l <= heldc rid r + (if h_seq (r_spec h) && Nat.eqb (r_id h) rid then 1 else 0).
+Proof.
+  revert p h async r. induction l as [|i l IH]; intros p h async r Nu U rid; [discriminate|].
+  assert (Nl : nounlock l) by (intros x Hx; apply Nu; right; exact Hx).
+  assert (Ni : is_unlock i = false) by (apply Nu; left; reflexivity).
+  destruct i; cbn [unwind] in U; try discriminate Ni;
+    try (specialize (IH _ _ _ _ Nl U rid); rewrite heldc_cons; cbn [held_i]; lia).
+  inversion U; subst. rewrite heldc_cons. cbn [held_i]. lia.
+Qed.
+
+Ltac nu_tac Nr :=
+  repeat first
+    [ exact Nr
+    | apply nounlock_nil
+    | apply nounlock_cons; [reflexivity|]
+    | apply nounlock_app
+    | apply plain_nounlock, plain_acts
+    | apply plain_nounlock, plain_entries
+    | apply plain_nounlock, plain_shards
+    | match goal with |- nounlock (if ?b then _ else _) => destruct b end
+    | match goal with |- nounlock (match ?b with _ => _ end) => destruct b end
+    | (let i := fresh in let H := fresh in intros i H; destruct H as [<-|[]]; reflexivity)
+    | (let i := fresh in let H := fresh in intros i H; destruct H) ].
+
+Lemma ucinv_upd s a old newc s' (spawn : option (actor * list instr)) :
+  uinv s -> cinv s -> assoc_get (code s) a = Some old -> seqlocks s' = seqlocks s ->
+  code s' = assoc_set (match spawn with Some (t, ct) => assoc_set (code s) t ct | None => code s end) a newc ->
+  match spawn with Some (t, ct) => assoc_get (code s) t = None /\ nounlock ct /\ t <> a | None => True end ->
+  nounlock (tl newc) -> (forall rid, 0 < held rid old -> 0 < held rid newc) -> uinv s' /\ cinv s'.
+Proof.
+  intros U C Ha Hs Hc Hsp Nn Hge.
+  assert (Hget: forall b c, assoc_get (code s') b = Some c ->
+            (b = a /\ c = newc) \/
+            (match spawn with Some (t, ct) => b = t /\ c = ct | None => False end) \/
+            (b <> a /\ assoc_get (code s) b = Some c)).
+  { intros b c Hb. rewrite Hc in Hb. destruct (Nat.eq_dec a b) as [->|N].
+    - rewrite assoc_get_set_same in Hb. inversion Hb. left. auto.
+    - rewrite assoc_get_set_other in Hb by exact N. destruct spawn as [[t ct]|].
+      + destruct (Nat.eq_dec t b) as [->|N2].
+        * rewrite assoc_get_set_same in Hb. inversion Hb. right. left. auto.
+        * rewrite assoc_get_set_other in Hb by exact N2. right. right. split; [congruence|exact Hb].
+      + right. right. split; [congruence|exact Hb]. }
+  split.
+  - intros b c Hb. destruct (Hget b c Hb) as [[-> ->]|[Hs2|[_ Hold]]]; [exact Nn| |eapply U; exact Hold].
+    destruct spawn as [[t ct]|]; [|contradiction]. destruct Hs2 as [-> ->]. apply nounlock_tl. apply Hsp.
+  - intros rid b Hb. rewrite Hs in Hb. destruct (C rid b Hb) as [c [Hc1 Hc2]].
+    destruct (Nat.eq_dec b a) as [->|N].
+    + exists newc. split; [rewrite Hc; apply assoc_get_set_same|]. apply Hge. rewrite Ha in Hc1. inversion Hc1; subst. exact Hc2.
+    + exists c. split; [|exact Hc2]. rewrite Hc. rewrite assoc_get_set_other by congruence.
+      destruct spawn as [[t ct]|]; [|exact Hc1].
+      destruct (Nat.eq_dec t b) as [->|N2]; [destruct Hsp as [Hn _]; congruence|].
+      rewrite assoc_get_set_other by exact N2. exact Hc1.
+Qed.
+
+Ltac fin_uc U C Ha Lr Nr :=
+  eapply (ucinv_upd _ _ _ _ _ None); [exact U|exact C|exact Ha
+    |cbn [cont set_code set_registry seqlocks]; rewrite ?upd_pub_seqlocks; reflexivity
+    |cbn [cont set_code set_registry code]; rewrite ?upd_pub_code; reflexivity
+    |exact I
+    |apply nounlock_tl; nu_tac Nr
+    |let rid := fresh "rid" in intros rid;
+     rewrite !held_lockfree by (first [assumption | lf_tac Lr]);
+     hsimp;
+     repeat (match goal with
+             | |- context[if ?b then _ else _] => destruct b
+             | |- context[match ?b with _ => _ end] => destruct b
+             end); cbn [heldc held_i fold_right]; lia].
+
+Theorem ucinv_step P cfg s a s' ls :
+  winv s -> linv s -> uinv s -> cinv s -> mstep P cfg s a = Some (s', ls) -> uinv s' /\ cinv s'.
+Proof.
+  intros WI L U C H. unfold mstep in H.
+  destruct (assoc_get (code s) a) as [[|i rest]|] eqn:Ha; try discriminate.
+  pose proof (li_wf s L a (i :: rest) Ha) as Wf.
+  pose proof (U a (i :: rest) Ha) as Nr. cbn [tl] in Nr.
+  assert (Hfresh: assoc_get (code s) (next_actor s) = None /\ next_actor s <> a).
+  { split.
+    - destruct (assoc_get (code s) (next_actor s)) eqn:E; [|reflexivity]. destruct (wi_bound s WI _ _ E). lia.
+    - destruct (wi_bound s WI a _ Ha). lia. }
+  inversion Wf as [c Lf Ec|h c Bt Ec|p0 h async0 c Bt Ec]; subst.
+  - (* lock-free code *)
+    pose proof (lockfree_tail _ _ Lf) as Lr.
+    destruct i; cbn [step_instr] in H.
+    all: try (break_head H; try discriminate; inversion H; subst; clear H; solve [timeout 20 fin_uc U C Ha Lr Nr]).
+    + (* IDo *)
+      destruct a0; cbn [step_instr] in H; break_head H; try discriminate; inversion H; subst; clear H;
+        try solve [timeout 20 fin_uc U C Ha Lr Nr].
+      * (* AShutdown *)
+        eapply (ucinv_upd _ _ _ _ _ (Some (next_actor s, [IWaiterDone (next_sid s)]))); [exact U|exact C|exact Ha|reflexivity|reflexivity| | |].
+        -- destruct Hfresh. repeat split; auto. intros i [<-|[]]; reflexivity.
+        -- apply nounlock_tl. nu_tac Nr.
+        -- intros rid. rewrite !held_lockfree by (first [assumption|lf_tac Lr]). hsimp. lia.
+      * (* APanic recovered *)
+        match goal with Un : unwind rest = Some (?p, ?h, ?async, ?r) |- _ =>
+          destruct (unwind_lockfree rest p h async r Lr Un) as [Lr2 _];
+          pose proof (unwind_heldc_ge rest p h async r Nr Un) as Hge;
+          pose proof (unwind_suffix rest p h async r Un Nr) as Nr2 end.
+        eapply (ucinv_upd _ _ _ _ _ None); [exact U|exact C|exact Ha|reflexivity|reflexivity|exact I| |].
+        -- apply after_recover_tl. exact Nr2.
+        -- intros rid. rewrite !held_lockfree by (first [assumption|apply lockfree_app; [apply after_recover_lockfree|exact Lr2]]).
+           hsimp. specialize (Hge rid). lia.
+    + (* IDispatch *)
+      break_head H; try discriminate; inversion H; subst; clear H; try solve [timeout 20 fin_uc U C Ha Lr Nr].
+      * eapply (ucinv_upd _ _ _ _ _ (Some (next_actor s, [ITaskStart p h]))); [exact U|exact C|exact Ha|reflexivity|reflexivity| | |].
+        -- destruct Hfresh. repeat split; auto. intros i [<-|[]]; reflexivity.
+        -- apply nounlock_tl. exact Nr.
+        -- intros rid. rewrite !held_lockfree by assumption. hsimp. lia.
+      * destruct (call_handler_wfl P p h false (c_obs cfg) rest Lr) as [W1 W2].
+        eapply (ucinv_upd _ _ _ _ _ None); [exact U|exact C|exact Ha|reflexivity|reflexivity|exact I| |].
+        -- apply nounlock_tl. unfold call_handler. nu_tac Nr.
+        -- intros rid. rewrite W2, held_lockfree by assumption. hsimp. lia.
+    + (* ILock cannot head lock-free code *)
+      exfalso. specialize (Lf (ILock h) (or_introl eq_refl)). discriminate.
+    + (* IRecover: the deferred unlock becomes the next instruction *)
+      inversion H; subst; clear H.
+      eapply (ucinv_upd _ _ _ _ _ None); [exact U|exact C|exact Ha|reflexivity|reflexivity|exact I| |].
+      * apply after_recover_tl. exact Nr.
+      * intros rid. rewrite !held_lockfree by (first [assumption | apply lockfree_app; [apply after_recover_lockfree | exact Lr]]).
+        hsimp. lia.
+    + (* IUnlock: release *)
+      inversion H; subst; clear H.
+      assert (Hmine: assoc_get (seqlocks s) (r_id h) = Some a).
+      { apply (li_held s L a _ (r_id h) Ha). rewrite held_lockfree by exact Lf. hsimp. rewrite Nat.eqb_refl. lia. }
+      split; [unfold uinv | unfold cinv]; cbn [cont set_code code seqlocks].
+      * intros b c Hb. destruct (Nat.eq_dec a b) as [->|N].
+        -- rewrite assoc_get_set_same in Hb. inversion Hb; subst. apply nounlock_tl. exact Nr.
+        -- rewrite assoc_get_set_other in Hb by exact N. eapply U; exact Hb.
+      * intros rid b Hb. destruct (Nat.eq_dec (r_id h) rid) as [<-|Nr2]; [rewrite assoc_get_del_same in Hb; discriminate|].
+        rewrite assoc_get_del_other in Hb by exact Nr2. destruct (C rid b Hb) as [c [Hc1 Hc2]].
+        destruct (Nat.eq_dec a b) as [<-|N].
+        -- exists rest. split; [apply assoc_get_set_same|]. rewrite Ha in Hc1. inversion Hc1; subst.
+           rewrite held_lockfree in Hc2 by exact Lf. rewrite held_lockfree by exact Lr. revert Hc2. hsimp.
+           apply Nat.eqb_neq in Nr2. rewrite Nr2. lia.
+        -- exists c. split; [rewrite assoc_get_set_other by exact N; exact Hc1 | exact Hc2].
+    + (* ITaskStart *)
+      break_head H; try discriminate; inversion H; subst; clear H; try solve [timeout 20 fin_uc U C Ha Lr Nr].
+      destruct (call_handler_wfl P p h true (c_obs cfg) rest Lr) as [W1 W2].
+      eapply (ucinv_upd _ _ _ _ _ None); [exact U|exact C|exact Ha|reflexivity|reflexivity|exact I| |].
+      * apply nounlock_tl. unfold call_handler. nu_tac Nr.
+      * intros rid. rewrite W2, held_lockfree by assumption. hsimp. lia.
+  - (* ILock h at the head of a pending block: acquire *)
+    cbn [step_instr] in H. destruct (assoc_get (seqlocks s) (r_id h)) eqn:Efree; [discriminate|]. inversion H; subst; clear H.
+    destruct Bt as [mid [p [async [r [-> [Pm [Lr Hs]]]]]]].
+    assert (Lnew: lockfree (mid ++ IRecover p h async :: r)).
+    { apply lockfree_app; [apply plain_lockfree, Pm|apply lockfree_cons; [reflexivity|exact Lr]]. }
+    split; [unfold uinv | unfold cinv]; cbn [cont set_code code seqlocks].
+    + intros b c Hb. destruct (Nat.eq_dec a b) as [->|N].
+      * rewrite assoc_get_set_same in Hb. inversion Hb; subst. apply nounlock_tl. exact Nr.
+      * rewrite assoc_get_set_other in Hb by exact N. eapply U; exact Hb.
+    + intros rid b Hb. destruct (Nat.eq_dec (r_id h) rid) as [<-|Nr2].
+      * rewrite assoc_get_set_same in Hb. inversion Hb; subst b.
+        exists (mid ++ IRecover p h async :: r). split; [apply assoc_get_set_same|].
+        rewrite held_lockfree by exact Lnew. rewrite heldc_app, heldc_cons, (heldc_plain _ mid Pm). cbn [held_i].
+        rewrite Hs, Nat.eqb_refl. cbn. lia.
+      * rewrite assoc_get_set_other in Hb by exact Nr2. destruct (C rid b Hb) as [c [Hc1 Hc2]].
+        destruct (Nat.eq_dec a b) as [<-|N].
+        -- exists (mid ++ IRecover p h async :: r). split; [apply assoc_get_set_same|]. rewrite Ha in Hc1. inversion Hc1; subst.
+           rewrite held_lockfree by exact Lnew. cbn [held] in Hc2. revert Hc2. rewrite !heldc_app, !heldc_cons. cbn [held_i].
+           apply Nat.eqb_neq in Nr2. rewrite Nr2. rewrite andb_false_r. lia.
+        -- exists c. split; [rewrite assoc_get_set_other by exact N; exact Hc1 | exact Hc2].
+  - (* IHandlerStart before a pending block *)
+    cbn [step_instr] in H. inversion H; subst; clear H.
+    eapply (ucinv_upd _ _ _ _ _ None); [exact U|exact C|exact Ha|reflexivity|reflexivity|exact I| |].
+    + cbn [tl]. exact (nounlock_tl _ Nr).
+    + intros rid. cbn [held]. lia.
+Qed.
+
+Lemma ucinv_init threads : uinv (init_state threads) /\ cinv (init_state threads).
+Proof.
+  split.
+  - intros a c H.
+    assert (Hi: In (a, c) (combine (seq 0 (length threads)) (map acts threads))).
+    { unfold init_state in H. cbn [code] in H.
+      induction (combine (seq 0 (length threads)) (map acts threads)) as [|[k v] r IH]; [discriminate|].
+      cbn in H. destruct (Nat.eqb k a) eqn:E; [apply Nat.eqb_eq in E; inversion H; subst; left; reflexivity|right; apply IH, H]. }
+    apply in_combine_r in Hi. apply in_map_iff in Hi. destruct Hi as [l [<- _]].
+    apply nounlock_tl, plain_nounlock, plain_acts.
+  - intros rid a H. discriminate H.
+Qed.
+
+Lemma ucinv_run P cfg : forall sched s, winv s -> linv s -> uinv s -> cinv s ->
+  uinv (fst (run P cfg s sched)) /\ cinv (fst (run P cfg s sched)).
+Proof.
+  induction sched as [|a r IH]; intros s I L U C; cbn [run]; [split; assumption|].
+  destruct (mstep P cfg s a) as [[s' ls]|] eqn:E.
+  - destruct (ucinv_step P cfg s a s' ls I L U C E) as [U' C'].
+    specialize (IH s' (winv_step P cfg s a s' ls I E) (linv_step P cfg s a s' ls I L E) U' C'). destruct (run P cfg s' r). exact IH.
+  - apply IH; assumption.
+Qed.
+
+(* over every schedule of every program: a Sequential handler's mutex that is held is held by a goroutine that still
+   carries the matching deferred unlock - no panic, cancellation or re-entrant call ever orphans it *)
+Theorem no_orphaned_handler_lock P cfg s : reachable P cfg s ->
+  forall rid a, assoc_get (seqlocks s) rid = Some a -> exists c, assoc_get (code s) a = Some c /\ 0 < held rid c.
+Proof.
+  intros [threads [sched ->]].
+  destruct (ucinv_init threads) as [U C].
+  exact (proj2 (ucinv_run P cfg sched _ (winv_init threads) (linv_init threads) U C)).
+Qed.
+
+(* ================================================================== *)
+(* C03: the store mutex is held only across the store's Append - its holder is never blocked *)
+Lemma upd_pub_store_mu s p f : store_mu (upd_pub s p f) = store_mu s.
+Proof. unfold upd_pub. destruct (assoc_get (pubs s) p); reflexivity. Qed.
+
+Lemma store_mu_step P cfg s a i rest s' ls :
+  step_instr P cfg s a i rest = Some (s', ls) ->
+  match i with
+  | IPersistLock p => store_mu s = None /\ store_mu s' = Some a /\ assoc_get (code s') a = Some (IPersistAppend p :: rest)
+  | IPersistAppend p => store_mu s' = store_mu s /\ assoc_get (code s') a = Some (IPersistAppendDone p :: rest)
+  | IPersistAppendDone p => store_mu s' = None
+  | _ => store_mu s' = store_mu s
+  end.
+Proof.
+  intros H. destruct i; cbn [step_instr] in H.
+  all: try (break_head H; try discriminate; inversion H; subst; clear H;
+            solve [cbn [cont set_code store_mu]; rewrite ?upd_pub_store_mu; reflexivity]).
+  - (* IPersistLock *)
+    destruct (store_mu s) eqn:E; [discriminate|]. inversion H; subst; clear H.
+    split; [reflexivity|]. split; [reflexivity | apply code_cont].
+  - (* IPersistAppend *)
+    inversion H; subst; clear H. split; [reflexivity | apply code_cont].
+Qed.
+
+Definition sminv (s : bstate) : Prop :=
+  forall a, store_mu s = Some a ->
+  exists p rest, assoc_get (code s) a = Some (IPersistAppend p :: rest) \/ assoc_get (code s) a = Some (IPersistAppendDone p :: rest).
+
+Lemma sminv_step P cfg s b s' ls : winv s -> sminv s -> mstep P cfg s b = Some (s', ls) -> sminv s'.
+Proof.
+  intros WI SM H. unfold mstep in H.
+  destruct (assoc_get (code s) b) as [[|i rest]|] eqn:Hb; try discriminate.
+  pose proof (store_mu_step P cfg s b i rest s' ls H) as M.
+  pose proof (step_frame P cfg s b i rest s' ls H) as F.
+  assert (Hother : forall a c, a <> b -> assoc_get (code s) a = Some c -> assoc_get (code s') a = Some c).
+  { intros a c Nab Ha. assert (Nn : a <> next_actor s) by (destruct (wi_bound s WI a c Ha); lia).
+    destruct F as [[_ F]|[[p0 [h0 [_ [_ F]]]]|[_ [_ F]]]]; rewrite F; auto. }
+  intros a Ha'.
+  assert (Hkeep : store_mu s' = store_mu s -> (forall p, i <> IPersistAppend p) ->
+                  exists p r, assoc_get (code s') a = Some (IPersistAppend p :: r) \/ assoc_get (code s') a = Some (IPersistAppendDone p :: r)).
+  { intros E Ni. rewrite E in Ha'. destruct (SM a Ha') as [p [r Hc]].
+    destruct (Nat.eq_dec a b) as [->|Nab].
+    - exfalso. rewrite Hb in Hc. destruct Hc as [Hc|Hc]; inversion Hc; subst.
+      + apply (Ni p). reflexivity.
+      + cbn in M. rewrite M in E. rewrite <- E in Ha'. discriminate.
+    - exists p, r. destruct Hc as [Hc|Hc]; [left|right]; apply (Hother a _ Nab Hc). }
+  destruct i; try (apply Hkeep; [exact M | intros q; discriminate]).
+  - (* IPersistLock *)
+    destruct M as (_ & M2 & M3). rewrite M2 in Ha'. inversion Ha'; subst a. eexists. eexists. left. exact M3.
+  - (* IPersistAppend *)
+    destruct M as (M1 & M2). rewrite M1 in Ha'. destruct (SM a Ha') as [q [r Hc]].
+    destruct (Nat.eq_dec a b) as [->|Nab].
+    + eexists. eexists. right. exact M2.
+    + exists q, r. destruct Hc as [Hc|Hc]; [left|right]; apply (Hother a _ Nab Hc).
+  - (* IPersistAppendDone *)
+    cbn in M. rewrite M in Ha'. discriminate.
+Qed.
+
+Lemma sminv_run P cfg : forall sched s, winv s -> sminv s -> sminv (fst (run P cfg s sched)).
+Proof.
+  induction sched as [|a r IH]; intros s I S; cbn [run]; [exact S|].
+  destruct (mstep P cfg s a) as [[s' ls]|] eqn:E.
+  - specialize (IH s' (winv_step P cfg s a s' ls I E) (sminv_step P cfg s a s' ls I S E)). destruct (run P cfg s' r). exact IH.
+  - apply IH; assumption.
+Qed.
+
+(* over every schedule: whoever holds the store mutex is at the store's Append or just past it, and can step *)
+Theorem store_lock_holder_runs P cfg s : reachable P cfg s ->
+  forall a, store_mu s = Some a -> exists s' ls, mstep P cfg s a = Some (s', ls).
+Proof.
+  intros [threads [sched ->]] a Ha.
+  assert (SM : sminv (fst (run P cfg (init_state threads) sched))).
+  { apply sminv_run; [apply winv_init|]. intros x Hx. discriminate Hx. }
+  destruct (SM a Ha) as [p [rest [Hc|Hc]]]; unfold mstep; rewrite Hc; cbn [step_instr].
+  - eexists. eexists. reflexivity.
+  - destruct (match p_pfault P (pb_val (get_pub (fst (run P cfg (init_state threads) sched)) p)) with PfOk => true | _ => false end) eqn:E;
+      eexists; eexists; reflexivity.
+Qed.
